@@ -6,7 +6,7 @@ var netsimReal = []string{
 	"consensus: engine (consensus.go), syncer, vote sets, commit vote lists, block part sets, WAL apply/repair, dsmLog",
 	"consensus/wal.go on real files (tmpfs)", "block.Manager (import, propose, finalize, block encode/decode)",
 	"service.Transition execution via the repo's test service manager (test/servicemanager.go) on basic.Platform",
-	"consensus/fastsync manager (registered, idle)", "common/txlocator manager",
+	"consensus/fastsync manager, client and server (profiles fastsync and lag: a validator far behind catches up through it)", "common/txlocator manager",
 }
 var netsimStubbed = []string{
 	"network overlay (simulated full-mesh transport: module.NetworkManager implemented by the harness)",
@@ -14,10 +14,10 @@ var netsimStubbed = []string{
 	"SCORE execution engines (none; test transactions only)", "transaction gossip (harness hands transactions to a subset of nodes)",
 }
 var netsimAssume = []string{
-	"process-crash model for the database: every completed DB write survives a crash; only the WAL has torn tails (arbitrary prefix beyond the last acknowledged sync)",
+	"process-crash model for the database: every completed DB write survives a crash; only the WAL has torn tails (an arbitrary prefix beyond the last acknowledged sync, or the full length with junk behind the header of an unsynced record)",
 	"fewer than one third of the validators Byzantine in every validator set of the run; correct nodes keep their WAL and DB across restarts",
-	"goroutine interleaving inside one node is explored at consensus-mutex granularity (verif hook in common.Mutex); engines run with GOMAXPROCS=1",
-	"fast sync stays idle (lag is kept below its threshold)",
+	"goroutine interleaving inside one node is explored at the granularity of the consensus and fast-sync mutexes (verif hook in common.Mutex); block-manager requests of the engine start at driver-chosen instants; engines run with GOMAXPROCS=1",
+	"fast sync runs only in profiles fastsync and lag; elsewhere lag is kept below its threshold",
 }
 
 func init() {
@@ -25,7 +25,7 @@ func init() {
 		ID: "C01", Engine: "netsim",
 		Profiles:  []kit.ProfileSpec{{Name: "faultfree", Weight: 1}, {Name: "net", Weight: 2}, {Name: "crash", Weight: 3}, {Name: "byz", Weight: 3}, {Name: "lag", Weight: 2}},
 		QuickRuns: 320, QuickBudgetS: 60, ThoroughRuns: 20000, ThoroughBudgetS: 900,
-		Rule: "one run = one tape: cluster size, timeouts, latencies, fault rates, crash points, workload and every delivery/lock-grant order are drawn from it; " +
+		Rule: "one run = one tape: cluster size, timeouts, latencies, fault rates, crash points, workload and every delivery/lock-grant order are drawn from it; profiles: faultfree, net (loss, duplication, reordering, corruption, partitions, late duplicates of whole old rounds, precommit starvation, split polkas), crash (1-5 crash-restarts at WAL/send/DB crash points with torn or junk WAL tails, double crashes), byz (equivocating votes, two VALID sibling proposals split between the validators, withholding, vote storms), lag (a running validator is cut off until it is 6-7 heights behind and catches up by fast sync); " +
 			"non-trivial = every correct node finalized at least one height; distinct = distinct event-log hash (every send, delivery, drop, crash image, restart, lock-relevant delivery order and finalization).",
 		QuickProbes:     []string{"target_reached"},
 		EssentialProbes: []string{"target_reached", "crash", "torn_wal_tail", "restart", "partition", "drop", "duplicate", "validator_set_changed"},
@@ -38,7 +38,7 @@ func init() {
 		ID: "C02", Engine: "netsim",
 		Profiles:  []kit.ProfileSpec{{Name: "crash", Weight: 1}},
 		QuickRuns: 240, QuickBudgetS: 60, ThoroughRuns: 20000, ThoroughBudgetS: 900,
-		Rule: "crash-heavy cluster runs (1-5 crash-restarts per run, most at WAL write/sync crash points, torn round/lock/commit WAL tails, restart into continued traffic); " +
+		Rule: "crash-heavy cluster runs (1-5 crash-restarts per run, most at WAL write/sync crash points, torn round/lock/commit WAL tails or junk behind the header of an unsynced record, double crashes of one validator, restart into continued traffic); " +
 			"oracle 1: at most one distinct signed content per (correct validator, height, round, kind) over everything that ever appeared on the wire from any node plus what a restarted validator finds in its own WAL image; " +
 			"oracle 2: the validator's own vote/proposal is covered by an acknowledged sync of its round WAL at the moment it is handed to the network. " +
 			"non-trivial = at least one crash-restart happened and every correct node finalized a height; distinct = distinct event-log hash.",
